@@ -1,7 +1,7 @@
 (* C15: model-versus-code correspondence for the regenerated convert_units: the generated code is
    evaluated (vm_compute) on the constituent lines the generator wrote and its mole totals are
    compared with what the engine reports (TOTMOLE of the initial-solution calculation). *)
-From Coq Require Import QArith List String ZArith Bool.
+From Coq Require Import QArith List String Ascii ZArith Bool.
 Require Import IPV.C15.Ir IPV.C15.Convert IPV.C15.Checker.
 Import ListNotations.
 Open Scope string_scope.
